@@ -18,6 +18,8 @@ package utils
 // languages, literal values, metric choices and comparison outcomes at once.
 
 import (
+	"math"
+
 	"github.com/prometheus/prometheus/model/labels"
 	promParser "github.com/prometheus/prometheus/promql/parser"
 	"github.com/prometheus/prometheus/promql/parser/posrange"
@@ -760,6 +762,24 @@ func verifCompare(op promParser.ItemType, a, b float64) bool {
 	return a > b
 }
 
+func verifArith(op promParser.ItemType, a, b float64) float64 {
+	switch op {
+	case promParser.ADD:
+		return a + b
+	case promParser.SUB:
+		return a - b
+	case promParser.MUL:
+		return a * b
+	case promParser.DIV:
+		return a / b
+	case promParser.MOD:
+		return math.Mod(a, b)
+	case promParser.POW:
+		return math.Pow(a, b)
+	}
+	return math.Atan2(a, b)
+}
+
 func (e *vEval) evalBinary(n *vNode) []vSeries {
 	t := n.tag()
 	isCmp := n.op == vOpCmp || n.op == vOpCmpBool
@@ -779,6 +799,14 @@ func (e *vEval) evalBinary(n *vNode) []vSeries {
 				out[i].name = 0
 			}
 			if !isCmp {
+				if in[i].known { // arithmetic on a constant
+					out[i].known = true
+					if vn == n.l {
+						out[i].val = verifArith(n.opItem, in[i].val, sn.num)
+					} else {
+						out[i].val = verifArith(n.opItem, sn.num, in[i].val)
+					}
+				}
 				continue
 			}
 			if in[i].known {
@@ -875,6 +903,13 @@ func (e *vEval) evalBinary(n *vNode) []vSeries {
 		}
 		if n.card == vCardOne {
 			s.name = verifIteInt(n.on, 0, s.name) // on(...) keeps only the listed labels
+		}
+		if !isCmp && x.known && oneKnown {
+			a, b := x.val, one[0].val
+			if n.card == vCardRight {
+				a, b = b, a
+			}
+			s.known, s.val = true, verifArith(n.opItem, a, b)
 		}
 		if isCmp {
 			if x.known && oneKnown {
